@@ -18,7 +18,7 @@ func TestMain(m *testing.M) { kit.Main(m) }
 
 const rule = "provider populations from the provider zoo (11 concrete types, 6 overlapping interfaces, named/unnamed, lazy/eager, Comp() results drawn) x 1-3 run-time built consumers with 1-4 unnamed points of kinds *T, I, []*T, []I, any, []any under wire:\"\" / func:\"Comp\" / func:\"Comp,returns=..\"; oracle = plain-reflect reference candidate set over the registered population; non-trivial = some point has >=2 admissible components and the population holds a same-shaped non-candidate; distinct by scenario shape"
 
-var kinds = []int{0, 1, 2, 3, 4, 5, 6, 7, 8, 13, 14, 15}
+var kinds = []int{0, 1, 2, 3, 4, 5, 6, 7, 8, 13, 14, 15, 17, 18, 17} // 17/18 = alt-package PA / PB
 var names = []string{"n1", "n2", "n3", "n4", "n5", "n6"}
 var compVals = []string{"a", "b", "c"}
 
@@ -221,5 +221,36 @@ func TestLazyRetry(t *testing.T) {
 			}
 		}
 		kit.Rec.Case(desc, true, "retried-lazy-creation")
+	})
+}
+
+// TestFailingCandidates: some candidates fail to initialise (always, or only at the first attempt). Either
+// start-up fails, or - if it succeeds - every point of every created component is complete: no
+// candidate is silently left out because its creation failed when it was pulled in.
+func TestFailingCandidates(t *testing.T) {
+	kit.Rec.Rule(rule)
+	rapid.Check(t, func(t *rapid.T) {
+		s := graph.Gen(t, graph.GenOpts{MinNodes: 2, MaxNodes: 5, Variants: "NNLLE", Aliases: true})
+		faulty := 0
+		for i := range s.Nodes {
+			if rapid.IntRange(0, 2).Draw(t, "faulty") == 0 {
+				s.Nodes[i].FailInit = rapid.SampledFrom([]int{zoo.FailAlways, zoo.FailOnce}).Draw(t, "mode")
+				faulty++
+			}
+		}
+		in := s.Instantiate()
+		in.Run()
+		desc := "failing-candidates " + s.Shape()
+		if in.Out.Panic != nil {
+			t.Fatalf("C06: panic %v\n%s", in.Out.Panic, desc)
+		}
+		if in.Out.Err != nil {
+			kit.Rec.Case(desc, false, "start-failed")
+			return
+		}
+		if err := graph.CheckWiringOpt(in.G, graph.WiringOpts{Complete: true}); err != nil {
+			t.Fatalf("C06: start-up succeeded although %d component(s) fail to initialise, and the wiring is incomplete: %v\n%s", faulty, err, desc)
+		}
+		kit.Rec.Case(desc, faulty > 0, "started-with-faulty-candidates-around")
 	})
 }
